@@ -137,12 +137,15 @@ class SymtableCodeGen(AbstractCodeGen):
         for d in toDel:
             imports[d[0]].remove(d[1])
 
-        # merging mib and constant imports
+        # merging mib and constant imports; a name the MIB imports from
+        # another module stays with that module
         for module in self.constImports:
+            symbols = [s for s in self.constImports[module]
+                       if not [m for m in imports if m != module and s in imports[m]]]
             if module in imports:
-                imports[module] += self.constImports[module]
+                imports[module] += symbols
             else:
-                imports[module] = self.constImports[module]
+                imports[module] = symbols
 
         for module in sorted(imports):
             symbols = ()
